@@ -556,7 +556,8 @@ pub fn busy_await(handle: &CommandAcknowledgementHandle, max: Duration) -> Optio
 /// (syscall 202) or a sleep belonging to a background ticker. Returns a description if so.
 pub fn all_threads_blocked() -> Option<String> {
     let me = os_tid();
-    let timers = recorder().timer_tids.lock().unwrap().clone();
+    let mut timers = recorder().timer_tids.lock().unwrap().clone();
+    timers.extend(HELPERS.lock().unwrap().iter().copied());
     let mut summary = Vec::new();
     let entries = std::fs::read_dir("/proc/self/task").ok()?;
     for entry in entries.flatten() {
@@ -572,6 +573,12 @@ pub fn all_threads_blocked() -> Option<String> {
     }
     Some(summary.join(","))
 }
+
+static HELPERS: Mutex<Vec<u64>> = Mutex::new(Vec::new());
+
+/// Harness helper threads (clock advancers, observers, samplers) call this once: they sleep or spin on their own
+/// and are not part of the system under test, so the logical hang test ignores them.
+pub fn register_helper_thread() { HELPERS.lock().unwrap().push(os_tid()); }
 
 pub fn os_tid() -> u64 {
     // /proc/thread-self resolves to /proc/<pid>/task/<tid>
